@@ -24,12 +24,13 @@ def damage_options(size, P):
     for k in range(1, size // P + 1):
         tr.update((k * P - 1, k * P, k * P + 1))
     opts += [("trunc", n) for n in sorted(tr) if 0 <= n < size]
+    opts.append(("rmdir", 0))       # the whole top-level directory that holds the file disappears (the file itself if it has none)
     return opts
 
 
 def pick_tree(rng, P, allow_single=True):
     A = alphabet(P)
-    shapes = ["D2", "D3", "D4", "D1", "D2n", "DN", "DNf", "DU", "D5", "DNFC", "DS", "DM", "DX", "DSYM", "DEXT", "DPAD"] + (["S1"] if allow_single else [])
+    shapes = ["D2", "D3", "D4", "D1", "D2n", "DN", "DNf", "DU", "D5", "DNFC", "DS", "DM", "DX", "DSYM", "DEXT", "DPAD", "DP"] + (["S1"] if allow_single else [])
     while True:
         sh = rng.choice(shapes)
         k = 1 if sh == "S1" else len(SHAPES[sh])
@@ -52,6 +53,42 @@ def big_piece_cases(self, rng, clauses, damages):
                         c = self.mk(rng, P, v, src, 0, clauses, tree=(sh, sizes), route="lib")
                         c["damage"] = [dict(d, arg=min(d["arg"], sizes[d["file"]] - 1)) for d in dmg if d["file"] < len(sizes)]
                         out.append(c)
+    return out
+
+
+def periodic_cases(self, rng, clauses):
+    """Payloads in which every byte equals the byte one piece length earlier (a constant non-zero fill, identical
+    64-byte records), cut short after at least one whole piece: whatever a checker still holds from the piece
+    before is exactly what went missing."""
+    out = []
+    for v in (1, 2, 3):
+        for pat in ("const", "period"):
+            for P in (B, 2 * B):
+                for sh, sizes in (("S1", (3 * P + 5,)), ("D2", (2 * P, P + 7)), ("D2", (P + 1, 2 * P)), ("D3", (P, 5, 2 * P + 64))):
+                    for f in range(len(sizes)):
+                        for n in sorted({P, P + 1, 2 * P, sizes[f] - 1, sizes[f] - 64}):
+                            if not 0 < n < sizes[f]:
+                                continue
+                            c = self.mk(rng, P, v, "own", 0, clauses, tree=(sh, sizes), route="lib")
+                            for ff in c["tree"]["files"]:
+                                ff["mode"] = pat
+                            c["damage"] = [{"file": f, "kind": "trunc", "arg": n}]
+                            out.append(c)
+    return out
+
+
+def missing_dir_cases(self, rng, clauses):
+    """A whole directory of the payload is gone while siblings whose names merely START like the directory's
+    name (disc1 / disc10 / disc1.nfo, a / a.b / a0) are intact."""
+    out = []
+    for v in (1, 2, 3):
+        for src in ("own", "ref"):
+            for sh, which in (("DP", 0), ("DP", 2), ("DP", 4), ("D3", 1), ("D4", 0), ("D2n", 0)):
+                P = (B, 2 * B)[(v + which) % 2]
+                A = [a for a in alphabet(P) if 0 < a <= 3 * P + B + 1]
+                c = self.mk(rng, P, v, src, 0, clauses, tree=(sh, tuple(rng.choice(A) for _ in SHAPES[sh])), route="lib")
+                c["damage"] = [{"file": which, "kind": "rmdir", "arg": 0}]
+                out.append(c)
     return out
 
 
@@ -144,6 +181,10 @@ class RecheckProp(Prop):
             f = rng.randrange(nfiles)
             kind, arg = rng.choice(damage_options(t["files"][f]["size"], P))
             damage.append({"file": f, "kind": kind, "arg": arg})
+        if rng.random() < 0.12:       # contents in which the byte one piece length earlier is the same byte
+            pat = rng.choice(("const", "period"))
+            for f in t["files"]:
+                f["mode"] = pat
         return {"scaled": False, "extra_keys": rng.random() < 0.3, "rel_paths": rng.random() < 0.25,
                 "noise": rng.random() < 0.3, "via_symlink": rng.random() < 0.2,
                 "version": v, "meta_src": src, "P": P, "tree": t, "damage": damage,
@@ -247,8 +288,9 @@ class C16(RecheckProp):
             P = rng.choice(self.plens(tier))
             c = self.mk(rng, P, v, src, k % 4, cl)
             if c["tree"].get("single"):
-                c["damage"] = [d for d in c["damage"] if d["kind"] != "remove"]
+                c["damage"] = [d for d in c["damage"] if d["kind"] not in ("remove", "rmdir")]
             out.append(c)
+        out += periodic_cases(self, rng, cl) + missing_dir_cases(self, rng, cl)
         out += big_piece_cases(self, rng, cl, [[], [{"file": 0, "kind": "flip", "arg": 2 ** 20 + 7}],
                                                [{"file": 0, "kind": "trunc", "arg": 2 ** 21}]])
         # payload members reached through symbolic links (inside the root / leading outside it), intact and damaged
@@ -314,6 +356,7 @@ class C04(RecheckProp):
             c = self.mk(rng, B, v, "own", 0, ["C04.lt100"], tree=("DDEEP", (B + 1, 2 * B, 5)))
             c["damage"] = [{"file": 0, "kind": "flip", "arg": B}]
             out.append(c)
+        out += periodic_cases(self, rng, ["C04.lt100"]) + missing_dir_cases(self, rng, ["C04.lt100"])
         out += big_piece_cases(self, rng, ["C04.lt100"], [[{"file": 0, "kind": "flip", "arg": 2 ** 20 + 7}],
                                                           [{"file": 0, "kind": "trunc", "arg": 2 ** 21}]])
         lim = 20000 if tier == "thorough" else 1000
